@@ -45,6 +45,9 @@ def run_case(case, pname, variant, occ=0):
     if kw.pop('presorted', False):
         t = list(etl.sort(t, key))
         kw = {'presorted': True}
+    if kw.pop('inputs', None) == 'revsorted':
+        # the input is itself a view: a DESCENDING (stable) sort view on the grouping key; the operator sorts for itself
+        t = etl.sort(t, key, reverse=True)
     problems = []
     G = case['groups']
 
@@ -199,10 +202,20 @@ def run_case(case, pname, variant, occ=0):
     try:
         got = [tuple(r) for r in etl.mergeduplicates(t, key, **kw)]
         eq('mergeduplicates', [got[0]] + [_norm_merge(prof, r, nk, Conflict) for r in got[1:]], merged_want())
-        if not kw:
+        if not kw and isinstance(t, list):
             half = len(t) // 2 + 1
             got = [tuple(r) for r in etl.merge([HDR] + t[1:half], [HDR] + t[half:], key=key)]
             eq('merge', [got[0]] + [_norm_merge(prof, r, nk, Conflict) for r in got[1:]], merged_want())
+        if not kw and isinstance(t, list):
+            # a non-default `missing` whose occurrences in the data are EQUAL to it but not the same object
+            def fresh(c, i):
+                return int('-9999') if (c is None and i >= nk_pos) else c
+            nk_pos = max(HDR.index(f) for f in khdr) + 1
+            keypos = [HDR.index(f) for f in khdr]
+            tm = [list(HDR)] + [[(int('-9999') if (c is None and i not in keypos) else c) for i, c in enumerate(r)] for r in t[1:]]
+            got = [tuple(r) for r in etl.mergeduplicates(tm, key, missing=int('-9999'))]
+            back = [tuple((None if (type(c) is int and c == -9999) else c) for c in r) for r in got[1:]]
+            eq('mergeduplicates(missing=-9999)', [got[0]] + [_norm_merge(prof, r, nk, Conflict) for r in back], merged_want())
     except Exception as e:
         problems.append('mergeduplicates/merge raised %r' % (e,))
     # --- groupcountdistinctvalues, valuecounts, valuecounter
@@ -253,10 +266,10 @@ def _norm_merge(prof, r, nk, Conflict):
 
 
 def check_cases(chk, cases, profiles, full):
-    variants = [{}, {'buffersize': 1}, {'buffersize': 2, 'cache': False}, {'presorted': True}]
+    variants = [{}, {'buffersize': 1}, {'buffersize': 2, 'cache': False}, {'presorted': True}, {'inputs': 'revsorted'}]
     for ci, case in enumerate(cases):
         combos = [(p, v) for p in profiles for v in variants] if full else \
-            [(profiles[ci % len(profiles)], {}), (profiles[(ci + 1) % len(profiles)], variants[1 + ci % 3])]
+            [(profiles[ci % len(profiles)], {}), (profiles[(ci + 1) % len(profiles)], variants[1 + ci % 4])]
         for pname, variant in combos:
             probs = run_case(case, pname, variant, occ=ci)
             chk.count(('group', ci, pname, json.dumps(variant, sort_keys=True)))
